@@ -9,7 +9,8 @@ from vlib import *
 
 TY = {"int": "TInt", "bool": "TBool", "string": "TString", "dur": "TDur", "ctx": "TCtx", "err": "TErr",
       "ns": "(TNs 0)", "empty": "(TNs 1)", "myns": "(TNs 2)", "float64": "(TOther 1)", "int64": "(TOther 2)",
-      "mystring": "(TOther 3)", "strslice": "(TSlice TString)", "intptr": "(TOther 4)", "iface": "(TOther 5)"}
+      "mystring": "(TOther 3)", "strslice": "(TSlice TString)", "intptr": "(TOther 4)", "iface": "(TOther 5)",
+      "ctxstruct": "(TOther 6)", "ctxptr": "(TOther 7)", "ctxiface": "(TOther 8)"}
 SUP = ("int", "bool", "string", "dur")
 
 
@@ -206,7 +207,10 @@ def run(ctx):
             if t == "string":
                 raw = base64.b64decode(b[j].get("b", ""))
                 alt = rng.choice([raw + b"\xff", raw + b"\xfe", raw + b"x", raw[:-1] if raw else b"z", raw.replace(b"\xff", b"\xfe"),
-                                  raw + b"\xef\xbf\xbd", raw.upper()])
+                                  raw + b"\xef\xbf\xbd", raw.upper(),
+                                  # spellings an id encoding might confuse with the value itself
+                                  raw.hex().encode(), raw.hex().upper().encode(), base64.b64encode(raw), json.dumps(raw.decode("latin-1")).encode(),
+                                  json.dumps(raw.decode("utf-8", "replace")).encode()[1:-1], raw.decode("utf-8", "replace").encode("utf-8")])
                 b[j]["b"] = base64.b64encode(alt).decode()
             elif t == "int":
                 b[j]["v"] = b[j]["v"] + rng.choice([1, -1, 10])
